@@ -262,6 +262,7 @@ def _api_case(draw):
       st.tuples(st.sampled_from(['const_macro', 'const_query']), _idx, _idx),
       st.tuples(st.sampled_from(['const_macro', 'const_query']), st.just(0), _idx),
       st.tuples(st.just('method'), _idx, f_scope, f_param, st.integers(0, 99), _idx),
+      st.tuples(st.just('conf_method'), _idx, f_scope, f_param, st.integers(0, 99)),
   ).map(list)
   late = draw(st.lists(st.tuples(st.sampled_from(MODS), st.sampled_from(FNS)), max_size=3,
                        unique=True))
@@ -383,6 +384,13 @@ def check_api(case):
   gin.register(othermod.Trainer)
   step_obj = hostmod.Trainer.__dict__['step']
   touched = {'refs': False}
+  # a class decorated in place with gin.configurable that has a registered method: once the class
+  # has been looked up with a scope, the method is addressed through the class name -- and stays so
+  confmod = types.ModuleType('c08.conf')
+  confmod.gin = gin
+  sys.modules['c08.conf'] = confmod
+  exec('@gin.configurable\nclass ConfTrainer:\n  @gin.register\n'  # pylint: disable=exec-used
+       '  def step(self, p="dp", q="dq"):\n    return (p, q)\n', confmod.__dict__)
   mmodel = {}   # scope -> {param: value}
 
   def moverlay(scope):
@@ -575,6 +583,20 @@ def check_api(case):
           raise Violation('reported-name-does-not-resolve', f'{type(e).__name__}: {e}\n{text}')
         require(state() == before, 'config_str-reparse-changed-config', text)
         labels.add('config_str-names-resolve')
+    elif kind == 'conf_method':
+      _, k, scope, param, val = op
+      for sc in ['s', 't', 's', 'u'][:1 + k % 4]:
+        gin.get_configurable(f'{sc}/ConfTrainer')
+      sp = ['ConfTrainer.step', 'conf.ConfTrainer.step', 'c08.conf.ConfTrainer.step'][k % 3]
+      try:
+        gin.bind_parameter((scope, sp, param), val)
+        got = gin.query_parameter(f'{scoped(scope, "c08.conf.ConfTrainer.step")}.{param}')
+      except AMBIG as e:
+        raise Violation('method-of-looked-up-class-not-addressable',
+                        f'{sp}.{param} after {1 + k % 4} scoped lookups of the class: '
+                        f'{type(e).__name__}: {e}')
+      require(got == val, 'method-of-looked-up-class', lambda: f'{got!r} vs {val!r}')
+      labels.add('method-of-configurable-class-after-scoped-lookups')
     elif kind == 'unknown':
       _, sp, api = op
       if m_match(names, sp):
